@@ -15,7 +15,8 @@ codegen.py  `_GenerateRenderMethod.__init__`      name = "render_%s" % node.func
                                                   "timeout" -> int(eval(..)), "...__M_defname=%r" in both
                                                   call formats, key default repr(name), the page tag's
                                                   attributes merged before the section's own
-            `write_inline_def`                    the decorator is written with buffered=False, inline=True
+            `write_inline_def`                    whether the decorator is written with the def's `buffered` flag (since
+                                                  /repo ec9a6d2) or with the literal False (before)
 parsetree.py `BlockTag.funcname`                  self.name or "__M_anon_%d" % (self.lineno,)
 cache.py    `invalidate_body/def/closure`         (key expression, __M_defname expression)
             `_get_cache_kw`                       kw.pop("__M_defname", None), setdefault("context", ...) on a copy
@@ -26,6 +27,7 @@ ext/beaker_cache.py `BeakerCacheImpl`             the names it defines (does it 
 from __future__ import annotations
 
 import ast
+import os
 import re
 
 from regen import group, RegenError, parse, find_class, find_func, const, lean_str, lean_string, HEADER
@@ -58,8 +60,44 @@ def _invalidate_shape(fn, rel):
     return c.args[0], c.keywords[0].arg, c.keywords[0].value
 
 
+def _write_status(failure):
+    """lean/MakoModel/Generated/CacheStatus.lean: builds iff the last translation of this group succeeded.  When the
+    source shape is not understood, Generated/Cache.lean keeps the content of the last *successful* translation (which
+    may stem from another working tree); this file then makes `MakoModel.Cache.Lemmas` - and with it every C17 theorem -
+    fail with the translator's message instead of with a stale constant's side condition.  The model and the driver do
+    not import it, so the failing-input search still runs."""
+    from regen import GEN_DIR, lean_string
+    if failure is None:
+        body = ("/-- the last run of tools/regen_cache.py understood the source -/\n"
+                "theorem regen_ok : True := trivial\n")
+    else:
+        msg = "tools/regen_cache.py could not read the source (Generated/Cache.lean is STALE): " + failure
+        body = ("/-- the last run of tools/regen_cache.py FAILED; this file does not build on purpose -/\n"
+                "theorem regen_ok : True := by\n  fail %s\n" % lean_string(msg))
+    text = (HEADER % "the outcome of tools/regen_cache.py") + "namespace MakoModel.Generated.CacheStatus\n\n" + body + \
+        "\nend MakoModel.Generated.CacheStatus\n"
+    path = os.path.join(GEN_DIR, "CacheStatus.lean")
+    old = open(path, encoding="utf-8").read() if os.path.exists(path) else None
+    if old != text:
+        os.makedirs(GEN_DIR, exist_ok=True)
+        tmp = path + ".tmp%d" % os.getpid()
+        with open(tmp, "w", encoding="utf-8") as f:
+            f.write(text)
+        os.replace(tmp, path)
+
+
 @group("Cache")
 def gen(repo) -> str:
+    try:
+        text = _gen(repo)
+    except RegenError as e:
+        _write_status(str(e))
+        raise
+    _write_status(None)
+    return text
+
+
+def _gen(repo) -> str:
     rel_c, rel_g, rel_p, rel_t = "mako/cache.py", "mako/codegen.py", "mako/parsetree.py", "mako/template.py"
     tc, tg, tp, tt = parse(repo, rel_c), parse(repo, rel_g), parse(repo, rel_p), parse(repo, rel_t)
 
